@@ -8,3 +8,13 @@ claim('C17', 'exploration',
       'Trusted: Python integers. Blacklist intervals half-open with start<end. Complete only on the stated small domain.',
       'exhaustive enumeration + property-based testing (Hypothesis) against an interval-arithmetic reference model',
       'DESIGN.md section 4, C17')
+claim('C03', 'exploration',
+      'Hypothesis-generated whitelist files (all supported formats, gzip, lazy loading, several aliases, N-containing and near-duplicate barcodes) with ALL 5^L observed strings queried per whitelist, and the shipped whitelists with all members / 1-mismatch neighbours of drawn subsets / drawn 2-mismatch and random strings, each lookup compared with a brute-force nearest-neighbour search.',
+      'Trusted: file system, gzip. Barcodes of a file unique and of one length; index columns not pure ACGTNX. Exhaustive only per generated whitelist (short barcodes).',
+      'property-based testing (Hypothesis) with per-whitelist exhaustive query enumeration against a brute-force nearest-neighbour reference',
+      'DESIGN.md section 4, C03')
+claim('C16', 'exploration',
+      'Hypothesis-generated operation histories (add / nested add / duplicate / sort / point, range and read queries; rounds add*-sort-query* as well as free interleavings) executed against FeatureContainer and a linear-scan model; the whole history shrinks as one value.',
+      'Trusted: numpy searchsorted, pysam get_blocks/get_aligned_pairs. Coordinates non-negative, strands +/-; the undocumented 4th lookup variant (optim not in bdbnb/nb/optim) is not claimed.',
+      'model-based / stateful property-based testing (Hypothesis operation sequences) against a linear-scan reference model',
+      'DESIGN.md section 4, C16')
